@@ -255,6 +255,34 @@ class StmtMixin:
             return self.assign_subscript(tgt, v, st)
         raise EngineError(f"assignment target {type(tgt).__name__}")
 
+    def assign_subscript(self, tgt, v: SV, st: State):
+        """d[k] = v on a modelled dict held in a local variable or an object field."""
+        out = []
+        lv = tgt.value
+        if not isinstance(lv, (ast.Name, ast.Attribute)):
+            raise EngineError(f"subscript store on a temporary: {ast.unparse(tgt)}")
+        for s2, vals in self.ev_list_top([_as_load(lv), tgt.slice], st):
+            if isinstance(vals, Raised):
+                out.append(self._raise(s2, vals))
+                continue
+            d, k = vals
+            if isinstance(d.t, TConst) and d.const is not None and d.const.v == {}:
+                raise EngineError("store into an untyped empty dict literal (declare the variable's type)")
+            if not isinstance(d.t, TDict):
+                raise EngineError(f"subscript store on {d.t!r}")
+            k = sym.coerce(self.reify(k), d.t.k)
+            v2 = sym.coerce(self.reify(v), d.t.v)
+            has, val, keys = d.extra["has"], d.extra["val"], d.extra["keys"]
+            new = SV(d.t, None, extra={
+                "has": z3.Store(has, k.z, z3.BoolVal(True)),
+                "val": z3.Store(val, k.z, v2.z),
+                "keys": z3.If(z3.Select(has, k.z), keys, z3.Concat(keys, z3.Unit(k.z))),
+            })
+            from .loops import _as_store
+
+            out.extend(self.assign(_as_store(lv), new, s2))
+        return out
+
     def local_type(self, st: State, name: str):
         fr = st.frame
         spec = fr.spec
@@ -488,11 +516,16 @@ class StmtMixin:
         if "*" in spec.modifies:
             return
         ref = base.z if isinstance(base, SV) else base
+        if ref is None:
+            # a callee that may write the field of any object: the root must allow the whole field too
+            ok = any(k == key and r0 is None for r0, k, t in self.root_modifies)
+            self.oblige(st, "frame", f"{key} (whole field)", z3.BoolVal(ok), node)
+            return
         # stores into objects allocated by this call are always allowed
         allowed = [ref >= self.entry_alloc]
         for r0, k, t in self.root_modifies:
             if k == key:
-                allowed.append(ref == r0)
+                allowed.append(z3.BoolVal(True) if r0 is None else ref == r0)
         self.oblige(st, "frame", f"{key}", st.cond(z3.Or(*allowed)), node)
 
 
